@@ -45,12 +45,14 @@ def component(tag, c):
 def manifest_doc(m):
     root = dict(tag="manifest", attrs=[iattr("versionCode", m["vcode"]), sattr("versionName", m["vname"]),
                                        dict(name="package", ns=None, type=3, value=".".join(m["pkg"]))], children=[])
-    if m["minsdk"] or m["target"]:
+    if m["minsdk"] or m["target"] or m.get("maxsdk"):
         a = []
         if m["minsdk"]:
             a.append(iattr("minSdkVersion", m["minsdk"]))
         if m["target"]:
             a.append(iattr("targetSdkVersion", m["target"]))
+        if m.get("maxsdk"):
+            a.append(iattr("maxSdkVersion", m["maxsdk"]))
         root["children"].append(dict(tag="uses-sdk", attrs=a, children=[]))
     for p in m["perms"]:
         a = [sattr("name", p["name"])]
@@ -93,7 +95,7 @@ def observe(apkmod, raw):
     return dict(package=a.get_package() or "", vcode=a.get_androidversion_code() or "", vname=a.get_androidversion_name() or "",
                 permissions=sorted(a.get_permissions()), uses=[[n, (mx or 0)] for n, mx in a.uses_permissions],
                 activities=list(a.get_activities()), services=list(a.get_services()), receivers=list(a.get_receivers()), providers=list(a.get_providers()),
-                main=a.get_main_activity() or "", minsdk=num(a.get_min_sdk_version()), target=num(a.get_target_sdk_version()),
+                main=a.get_main_activity() or "", minsdk=num(a.get_min_sdk_version()), target=num(a.get_target_sdk_version()), maxsdk=num(a.get_max_sdk_version()),
                 effective=a.get_effective_target_sdk_version(), features=list(a.get_features()), libraries=list(a.get_libraries()))
 
 
@@ -144,7 +146,7 @@ def random_manifest(rnd):
     m = dict(pkg=pkg, vcode=rnd.choice([1, 42, 2147483647]), vname=rnd.choice(["1.0", "2.3-beta", "é"]),
                 perms=perms, acts=[comp() for _ in range(rnd.randrange(0, 6))], svcs=[dict(comp(), main=False, launcher=False) for _ in range(rnd.randrange(0, 3))],
                 rcvs=[dict(comp(), main=False, launcher=False) for _ in range(rnd.randrange(0, 3))], prvs=[dict(comp(), main=False, launcher=False) for _ in range(rnd.randrange(0, 2))],
-                minsdk=rnd.choice([0, 1, 21]), target=rnd.choice([0, 4, 33]),
+                minsdk=rnd.choice([0, 1, 21]), target=rnd.choice([0, 4, 33]), maxsdk=rnd.choice([0, 0, 19, 34]),
                 features=rnd.sample(["android.hardware.camera", "android.hardware.type.watch", "nodotfeature"], rnd.randrange(0, 3)),
                 libraries=rnd.sample(["org.apache.http.legacy", "com.google.android.maps", "nodotlib"], rnd.randrange(0, 3)))
     for key in ("acts", "svcs", "rcvs", "prvs"):
@@ -173,6 +175,7 @@ def run(chk):
         m = to_py(dict(st["m"]))
         m["aliases"] = []
         m["vcodetext"] = str(m["vcode"])
+        m["maxsdk"] = (0, 0, 30)[len(recs) % 3]          # <uses-sdk android:maxSdkVersion>, rotated over the enumerated manifests
         raw = make_apk(m, utf8=len(recs) % 2 == 1)
         recs.append(dict(m=m, obs=observe(apk, raw)))
         ms.append(m)
